@@ -93,7 +93,7 @@ def reg_tables(path, marker, tag):
     emit(f"Definition {tag}_copies : list (xarray * fparray) := [" + "; ".join(f"(XA_{a}, FA_{b})" for a, b in copies) + "].")
 
 emit("(* GENERATED by translator/rs2v.py from /repo/src on every ./check run - do not edit. *)")
-emit("From Coq Require Import List NArith.\nFrom MDW Require Import GenTypes.\nImport ListNotations.\nLocal Open Scope N_scope.\n")
+emit("From Coq Require Import List NArith String.\nFrom MDW Require Import GenTypes.\nImport ListNotations.\nLocal Open Scope N_scope.\n")
 
 tl = strip_comments((SRC / "linux/sections/thread_list_stream.rs").read_text())
 for c in ["LIMIT_AVERAGE_THREAD_STACK_LENGTH", "LIMIT_BASE_THREAD_COUNT", "LIMIT_MAX_EXTRA_THREAD_STACK_LEN", "LIMIT_MINIDUMP_FUDGE_FACTOR"]:
@@ -150,4 +150,46 @@ emit("Definition protection_table : list (bool * bool * bool * prot) := [\n  " +
 lib = strip_comments((SRC / "lib.rs").read_text())
 fps = re.findall(r"^\s+(\w+),", lib[lib.index("enum FailSpotName"):], flags=re.M)
 emit("Definition fail_points : list failpoint := [" + "; ".join("FP_" + f for f in fps) + "].")
+# ---- C19: which fields of the writer does a dump request modify, and which does it reset first? ----
+# functions of impl MinidumpWriter: the builder-style ones return `&mut Self` (configuration by the caller); every other
+# function of that file, and every section writer (they receive `config: &mut MinidumpWriter`), runs during a dump
+MUT_METHODS = ("push|clear|take|insert|extend|retain|truncate|pop|remove|append|get_or_insert_with|get_or_insert|replace|drain|"
+               "sort|sort_by|sort_by_key|dedup|swap|swap_remove|reserve|resize|split_off|push_str|set")
+def mutated_fields(text):
+    f = set(re.findall(r"\b(?:self|config)\s*\.\s*(\w+)\s*(?:=(?!=)|\+=|-=|\|=|&=)", text))
+    f |= set(re.findall(r"\b(?:self|config)\s*\.\s*(\w+)\s*\.\s*(?:%s)\s*\(" % MUT_METHODS, text))
+    f |= set(re.findall(r"&mut\s+(?:self|config)\s*\.\s*(\w+)", text))
+    return f
+def functions(text):
+    """(signature, body) of every fn in the text (brace matching on comment-stripped source)"""
+    res = []
+    for m in re.finditer(r"\bfn\s+(\w+)", text):
+        i = text.find("{", m.end())
+        semi = text.find(";", m.end())
+        if i < 0 or (0 <= semi < i): continue
+        depth, j = 0, i
+        while j < len(text):
+            if text[j] == "{": depth += 1
+            elif text[j] == "}":
+                depth -= 1
+                if depth == 0: break
+            j += 1
+        res.append((m.group(1), text[m.start():i], text[i:j + 1]))
+    return res
+mw = strip_comments((SRC / "linux/minidump_writer.rs").read_text())
+impl_at = mw.index("impl MinidumpWriter")
+dump_time, reset = set(), None
+for name, sig, body in functions(mw[impl_at:]):
+    if re.search(r"->\s*&mut\s+Self", sig) or name == "new": continue
+    if name == "dump":
+        cut = body.find("PtraceDumper::")
+        if cut < 0: raise ValueError("dump(): no PtraceDumper construction found")
+        reset = mutated_fields(body[:cut])
+    dump_time |= mutated_fields(body)
+if reset is None: raise ValueError("MinidumpWriter::dump not found")
+for f in sorted((SRC / "linux/sections").glob("*.rs")):
+    t = strip_comments(f.read_text())
+    if re.search(r"config\s*:\s*&mut\s+MinidumpWriter", t): dump_time |= mutated_fields(t)
+emit("Definition dump_mutated_fields : list string := [" + "; ".join('"%s"' % x for x in sorted(dump_time)) + "]%string.")
+emit("Definition dump_reset_fields : list string := [" + "; ".join('"%s"' % x for x in sorted(reset)) + "]%string.")
 open(OUT, "w").write("\n".join(out) + "\n")
